@@ -37,8 +37,8 @@ impl Prop for C06 {
     }
     fn budget(&self, tier: Tier) -> u64 {
         match tier {
-            Tier::Quick => 200_000,
-            Tier::Thorough => 8_000_000,
+            Tier::Quick => 800_000,
+            Tier::Thorough => 12_000_000,
         }
     }
     fn required_labels(&self) -> Vec<&'static str> {
@@ -49,6 +49,21 @@ impl Prop for C06 {
             "req_prepare_for_endpoint_discovery", "req_endpoint_discovery", "req_discovery_notify", "req_get_network_id",
             "req_query_hop", "req_resolve_uuid", "req_query_rate_limit", "swap_sensitive",
         ]
+    }
+    fn enumerate(&self, tier: Tier, shard: usize, nshards: usize, f: &mut dyn FnMut(EncCase)) {
+        let mut idx = 0usize;
+        super::enumer::for_each_enc_case(tier, false, false, false, &mut |env, call| {
+            if !call.is_request_encoder() {
+                return;
+            }
+            idx += 1;
+            if idx % nshards == shard {
+                f(EncCase { env, call });
+            }
+        });
+    }
+    fn enumerated_desc(&self, tier: Tier) -> Option<String> {
+        Some(format!("every value 0..255 of every single-byte request parameter (Set EID: 4 operations x EIDs 0x01..0xFE; vendor selector; resolve EID; routing-table handle; Query Hop EID x 6 message types; Resolve UUID handle), all 5 version queries, every routing entry count 0..7, 16 one-hot UUIDs, Allocate Endpoint IDs: {}", if tier == Tier::Thorough { "all 3 x 256 x 256 (operation, pool size, first EID) triples" } else { "3 operations x 768 (pool, first EID) pairs covering every value of each byte" }))
     }
     fn run(&self, case: &EncCase) -> CaseResult {
         let mut r = CaseResult::default();
